@@ -159,6 +159,8 @@ def fresh_like(ex, cur, name):
         return fresh(ex, T.Bool, name)
     if isinstance(cur, int):
         return fresh(ex, T.Int, name)
+    if isinstance(cur, Sym) and cur.ty == BYTES:
+        return fresh(ex, T.Bytes, name)
     if isinstance(cur, Sym):
         return Sym(z3.Const(ex.fresh_name(name), cur.t.sort()), cur.ty)
     if isinstance(cur, SymEnum):
@@ -168,7 +170,7 @@ def fresh_like(ex, cur, name):
     if isinstance(cur, MutBytes):
         return fresh(ex, T.ByteArray, name)
     if isinstance(cur, lib.JoinList):
-        return lib.JoinList(z3.Const(ex.fresh_name(name), cur.t.sort()))
+        return lib.JoinList(fresh(ex, T.Bytes, name).t)
     if isinstance(cur, SymList):
         return fresh(ex, T.List(cur.schema), name)
     if isinstance(cur, SymSet):
@@ -447,7 +449,7 @@ def same_value(ex, a, b):
         ts = [a.length == b.length] + [a.arrays[k] == b.arrays[k] for k in a.arrays]
         return mk_bool(z3.And(*ts))
     if isinstance(a, MutBytes) and isinstance(b, MutBytes):
-        return mk_bool(a.t == b.t)
+        return mk_bool(ops.bytes_eq(ex, a, b))
     if isinstance(a, SymSet) and isinstance(b, SymSet):
         return mk_bool(a.arr == b.arr)
     if isinstance(a, SymMap) and isinstance(b, SymMap):
@@ -570,7 +572,8 @@ def verify(contract, report, max_paths=5000, options=None, replay=None,
             key = (tuple(p.get_id() for p in pc), goal.get_id())
             if key in cache:
                 continue
-            res = smt.prove(pc, goal, timeout_ms)
+            res = smt.prove(pc, goal, timeout_ms,
+                            quick_refute=".CANARY[" in name)
             cache[key] = res
             cr.queries += 1
             cr.seconds += res.seconds
@@ -622,8 +625,11 @@ def concretize(model, v):
         if v.ty == BOOL:
             return z3.is_true(t)
         if v.ty == BYTES:
-            n = model.eval(z3.Length(v.t), model_completion=True).as_long()
-            return bytes(model.eval(v.t[i], model_completion=True).as_long() % 256
+            from .values import b_arr, b_len
+            n = model.eval(b_len(v.t), model_completion=True).as_long()
+            n = max(0, min(n, 4096))
+            return bytes(model.eval(z3.Select(b_arr(v.t), i),
+                                    model_completion=True).as_long() % 256
                          for i in range(n))
         if v.ty == REAL:
             f = t.as_fraction() if hasattr(t, "as_fraction") else None
